@@ -272,6 +272,13 @@ class Ctx(object):
             shutil.copy(gosum, os.path.join(HARNESS, 'go.sum'))
         out = os.path.join(self.subdir('bin'), pkg.replace('/', '_') + ('_race' if race else ''))
         cmd = ['go', 'build', '-tags', tags, '-o', out]
+        if REPO != '/repo':
+            # development aid: run the checks against a scratch worktree (mutation testing)
+            mf = os.path.join(self.work, 'go.mod')
+            with open(mf, 'w') as f:
+                f.write(open(os.path.join(HARNESS, 'go.mod')).read().replace('=> /repo', '=> ' + REPO))
+            open(os.path.join(self.work, 'go.sum'), 'w').write(open(gosum).read() if os.path.exists(gosum) else '')
+            cmd.append('-modfile=' + mf)
         if race:
             cmd.append('-race')
         cmd.append('./' + pkg)
@@ -319,6 +326,8 @@ class Ctx(object):
                 sys.stdout.flush()
             return False
         self.violations += 1
+        if self.violations > 5:
+            return True  # counted, not printed again: five replay files are enough
         os.makedirs(os.path.join(ROOT, 'replays'), exist_ok=True)
         self._replay_n += 1
         path = os.path.join(ROOT, 'replays', '%s-%s-%d-%d.json' % (self.pid, self.tier, self.seed, self._replay_n))
@@ -486,7 +495,7 @@ def main_entry(checks):
     ctx = Ctx(a.pid, a.tier if a.tier in ('quick', 'thorough') else 'quick', seed,
               level=getattr(mod, 'LEVEL', 'model_checking'))
     try:
-        if a.replay:
+        if a.replay and hasattr(mod, 'replay'):
             mod.replay(ctx, json.load(open(a.replay)))
         else:
             mod.run(ctx)
@@ -615,3 +624,23 @@ def validate_segments(ctx, module, cfgtext, spec_dirs, segments, name=None, max_
             ctx.log('%d segments rejected; %d left unexamined' % (len(rejected), len(alive)))
             break
     return accepted, rejected
+
+
+def compare_graphs(model_edges, real_edges):
+    """Both arguments: set of (src_key, label, dst_key). Returns dict with the
+    differences (model-only, real-only) and the matched fraction."""
+    me, re_ = set(model_edges), set(real_edges)
+    both = me & re_
+    return dict(model_edges=len(me), real_edges=len(re_), common=len(both),
+                model_only=sorted(me - re_)[:5], real_only=sorted(re_ - me)[:5],
+                n_model_only=len(me - re_), n_real_only=len(re_ - me),
+                fraction=round(len(both) / max(len(me), 1), 4))
+
+
+def real_graph_paths(g, rng=None):
+    """Edge cover of a gate.Explore graph; returns list of paths (lists of edge dicts)."""
+    keys = list(g['states'].keys())
+    idx = {k: k for k in keys}
+    edges = [(e['src'], e['dst'], i) for i, e in enumerate(g['edges'])]
+    paths, ncov, n = graph_paths(idx, edges, [g['init']], rng=rng)
+    return [[g['edges'][edges[ei][2]] for ei in p] for p in paths], ncov, n
